@@ -281,7 +281,11 @@ class Driver:
             if s["re"]:
                 kw["raise_error"] = True
             try:
-                sol = m.optimize(**kw)
+                if s.get("ctx"):
+                    with m:
+                        sol = m.optimize(**kw)
+                else:
+                    sol = m.optimize(**kw)
             except Exception as e:
                 return {"raises": type(e).__name__, "sol": NO_DIGEST}
             self.solutions.append(sol)
